@@ -52,8 +52,12 @@ def run(ctx, res):
         ex, rnd = [], rp
     # optimality concerns contests for which an audit is possible: of the exhaustive stream keep the non-empty outputs
     # (emptiness is C04's equation `output = [] <-> possible = false`, checked there on the whole stream)
+    with R.untraced():
+        seq = [] if rp else R.sequence_cases(rng, ctx.n(60, 400))
+    R.run_cases(seq, rng)            # first calls of the process: sequences of calls (state must not leak between calls)
     ex = [c for c in R.run_cases(ex) if c["impl"]["out"] is None or c["impl"]["out"]]
     R.run_cases(rnd, rng)
+    rnd = seq + rnd
     cases = ex + rnd
     cr = R.corr(ctx.pid, "raire_ex", R.IMPORTS, "raire_case", ex, R.case_lit, "agree_c15", shard=500, show="show_c15")
     res.corr.append(("max difficulty of compute_raire_assertions output vs verified optimum opt (RaireCheck.v), exhaustive small profiles",
@@ -69,7 +73,7 @@ def run(ctx, res):
     res.evaluations += len(cases) + len(ec)
 
     for c in cases:
-        if c["n"] <= 5 and c["impl"]["out"]:
+        if c["n"] <= 5 and (c["impl"]["out"] or c["impl"]["out"] is None):
             res.oracle_runs += 1
             with R.untraced():
                 whats = R.oracle_c15(c)
